@@ -751,6 +751,16 @@ func b2i(b bool) int {
 	return 0
 }
 
+// sortedKeys: the scenario list must be the same in every process, so no map order may enter it.
+func sortedKeys(m map[string]fileSpec) []string {
+	var ks []string
+	for k := range m {
+		ks = append(ks, k)
+	}
+	sort.Strings(ks)
+	return ks
+}
+
 func firstLine(s string) string {
 	if i := strings.IndexByte(s, '\n'); i > 0 {
 		return s[:i]
@@ -772,7 +782,8 @@ func gen(tier string, seed uint64) []runner.Scenario {
 		id := fmt.Sprintf("fixed/underscore-shift-%d", k)
 		out = append(out, runner.Scenario{ID: id, Run: func() runner.Result { return checkSpec(id, f, 1000+k, seed) }})
 	}
-	for name, f := range clashSpecs() {
+	for _, name := range sortedKeys(clashSpecs()) {
+		f := clashSpecs()[name]
 		name, f, idx := name, f, 3000+len(out)
 		id := "fixed/clash-" + name
 		out = append(out, runner.Scenario{ID: id, Run: func() runner.Result { return checkSpec(id, f, idx, seed) }})
@@ -788,12 +799,14 @@ func gen(tier string, seed uint64) []runner.Scenario {
 			out = append(out, runner.Scenario{ID: id, Run: func() runner.Result { return checkSpec(id, f, idx, seed) }})
 		}
 	}
-	for name, f := range twoPkgSpecs() {
+	for _, name := range sortedKeys(twoPkgSpecs()) {
+		f := twoPkgSpecs()[name]
 		name, f, idx := name, f, 5000+len(out)
 		id := "fixed/two-foreign-packages-" + name
 		out = append(out, runner.Scenario{ID: id, Run: func() runner.Result { return checkSpec(id, f, idx, seed) }})
 	}
-	for name, f := range siblingSpecs() {
+	for _, name := range sortedKeys(siblingSpecs()) {
+		f := siblingSpecs()[name]
 		name, f, idx := name, f, 5000+len(out)
 		id := "fixed/sibling-file-" + name
 		out = append(out, runner.Scenario{ID: id, Run: func() runner.Result { return checkSpec(id, f, idx, seed) }})
